@@ -96,9 +96,9 @@ def analyze(s, reencode=True, stereo=True):
     ok, why = R.same_molecule(m_in, m_out, check_h=True, kekule_ok=True)
     if not ok:
         out.append(('C03:same-molecule', '%s (selfies %r, output %r)' % (why, sel, smi)))
-        return out
+        stereo = False      # the atom-indexed clauses below need the same molecule; re-encoding stability does not
     # C05: kekulisation sanity on aromatic input atoms
-    arom = [i for i, a in enumerate(m_in.atoms) if a.aromatic]
+    arom = [i for i, a in enumerate(m_in.atoms) if a.aromatic] if ok else []
     if arom:
         for i in arom:
             if m_out.atoms[i].aromatic:
